@@ -216,6 +216,16 @@ def check(inp):
             else:
                 pass
         return compare(run(a), run(b), "%s on the %s of %s vs on each of %s" % (custom, place, cont, funcs[:inside] if place == "block" else funcs))
+    if kind == "override":
+        # an inner scope may set a field back to a FALSY value (false, 0, ''): the block says X = outer, one function inside
+        # says X = inner; equals every function of the block with X = outer except that one with X = inner
+        cont, funcs, field, outer, inner = inp["container"], inp["funcs"], inp["field"], inp["outer"], inp["inner"]
+        sec = inp.get("section", "options")
+        a_decls = [{"block": True, sec: {field: outer},
+                    "declarations": [fdecl(funcs[0], {sec: {field: inner}})] + [fdecl(f) for f in funcs[1:]]}]
+        b_decls = [fdecl(funcs[0], {sec: {field: inner}})] + [fdecl(f, {sec: {field: outer}}) for f in funcs[1:]]
+        return compare(run(wrap_container(cont, a_decls)), run(wrap_container(cont, b_decls)),
+                       "%s %s = %r on a block and %r on one function inside vs the same values on each function" % (sec, field, outer, inner))
     if kind == "inst":
         # a class template: the customisation on EVERY instantiation equals the customisation on the class itself
         funcs, custom = inp["funcs"], inp["custom"]
@@ -263,6 +273,12 @@ def candidates(seed, around=None):
             if cont != "namespace" and "_template" in str(cu):
                 continue
             yield {"kind": "scope", "container": cont, "funcs": fs[:3], "custom": cu, "place": "container", "inside": 3}
+    for cont in ("library", "class"):
+        fs = [f for f in FUNCS if usable(cont, f)][:3]
+        for field, outer, inner in (("C_extern_C", True, False), ("F_force_wrapper", True, False), ("F_string_len_trim", False, True),
+                                    ("debug", True, False), ("wrap_fortran", False, True), ("F_create_bufferify_function", False, True)):
+            yield {"kind": "override", "container": cont, "funcs": fs, "field": field, "outer": outer, "inner": inner}
+        yield {"kind": "override", "container": cont, "funcs": fs, "field": "F_result", "outer": "res", "inner": "rv2", "section": "format"}
     for cu in CUSTOM + INST_CUSTOM:
         yield {"kind": "inst", "funcs": [f for f in FUNCS][:3], "custom": cu}
     # the generic variants of a function see the attributes of its other arguments, however they were given
